@@ -1,13 +1,16 @@
 ------------------------------ MODULE MC_BigInt ------------------------------
 (* Self-test of spec/lib/BigInt.tla against TLC's native integers: every pair (a, b) with
-   a, b \in -R..R plus values around the limb boundaries 10^4, 10^8 and around 2^7, 2^8, 2^15, 2^16.
+   a, b \in -R..R plus values around the limb boundaries 10^4, 10^8 and around 2^7, 2^8, 2^15, 2^16 (a subset of
+   them when R < 100), and algebraic identities on numbers of up to 1000 bits (BigIdentities).
    One state per pair (a is chosen in the initial state, b by the single step, so that TLC's workers share the
    pairs); the invariants compare each BigInt operator with the native operator. *)
 EXTENDS BigInt, TLC
 CONSTANT R
 Edge == {127, 128, 129, 255, 256, 257, 9999, 10000, 10001, 19999, 20000, 32767, 32768, 32769, 65535, 65536, 65537,
          99999, 100000, 99989999, 99999999, 100000000, 100000001, 199999999, 1073741823}
-Vals == (-R..R) \cup Edge \cup {-x : x \in Edge}
+EdgeSel == IF R >= 100 THEN Edge ELSE {127, 128, 255, 256, 9999, 10000, 10001, 65536, 99999999, 100000000, 1073741823}
+Vals == (-R..R) \cup EdgeSel \cup {-x : x \in EdgeSel}
+BigK == IF R >= 100 THEN 7 ELSE 3
 VARIABLES a, b, ph
 Init == a \in Vals /\ b = 0 /\ ph = 0
 Next == ph = 0 /\ ph' = 1 /\ b' \in Vals /\ a' = a
@@ -21,51 +24,63 @@ NatWrapS(x, w) == LET m == x % (2 ^ w) IN IF m >= 2 ^ (w - 1) THEN m - 2 ^ w ELS
 \* native two's complement bit operation on w-bit patterns, result interpreted signed
 NatBits(op, x, y, w) == LET r == SmallBitOp(op, NatWrap(x, w), NatWrap(y, w), w) IN IF r >= 2 ^ (w - 1) THEN r - 2 ^ w ELSE r
 
-WellFormed == ph = 1 => 
+WellFormedBody ==
   IsBigInt(A) /\ ToInt(A) = a /\ FromDigits(A.s, ToDigits(A)) = A
-AddOk == ph = 1 => 
+WellFormed == ph = 1 => WellFormedBody
+AddOkBody ==
   Add(A, B) = FromInt(a + b) /\ Sub(A, B) = FromInt(a - b) /\ IsBigInt(Add(A, B)) /\ IsBigInt(Sub(A, B))
-CmpOk == ph = 1 => 
+AddOk == ph = 1 => AddOkBody
+CmpOkBody ==
   Cmp(A, B) = (IF a < b THEN -1 ELSE IF a > b THEN 1 ELSE 0) /\ (Neg(A) = FromInt(-a))
-MulOk == ph = 1 => 
+CmpOk == ph = 1 => CmpOkBody
+MulOkBody ==
   (Small(a) /\ Small(b)) => (Mul(A, B) = FromInt(a * b) /\ IsBigInt(Mul(A, B)))
-MulSmallOk == ph = 1 => 
+MulOk == ph = 1 => MulOkBody
+MulSmallOkBody ==
   (Small(a) /\ Small(b)) => MulSmall(A, b) = FromInt(a * b)
-QuoRemOk == ph = 1 => 
+MulSmallOk == ph = 1 => MulSmallOkBody
+QuoRemOkBody ==
   b # 0 => LET qr == QuoRem(A, B) IN
                      /\ IsQuoRem(A, B, qr.q, qr.r)
                      /\ qr.q = FromInt(TruncDiv(a, b))
                      /\ qr.r = FromInt(a - TruncDiv(a, b) * b)
                      /\ ~IsQuoRem(A, B, Add(qr.q, One), Sub(qr.r, B))        \* the relation is not satisfied by a neighbour
-DivSmallOk == ph = 1 => 
+QuoRemOk == ph = 1 => QuoRemOkBody
+DivSmallOkBody ==
   (b > 0 /\ b <= 100000) => LET d == DivSmall(A, b) IN d.q = FromInt(TruncDiv(a, b)) /\ d.r = a - TruncDiv(a, b) * b
-WrapOk == ph = 1 => 
+DivSmallOk == ph = 1 => DivSmallOkBody
+WrapOkBody ==
   /\ WrapTo(A, 8, TRUE) = FromInt(NatWrapS(a, 8)) /\ WrapTo(A, 8, FALSE) = FromInt(NatWrap(a, 8))
           /\ WrapTo(A, 16, TRUE) = FromInt(NatWrapS(a, 16)) /\ WrapTo(A, 16, FALSE) = FromInt(NatWrap(a, 16))
           /\ FitsIn(A, 8, TRUE) = (a >= -128 /\ a <= 127) /\ FitsIn(A, 8, FALSE) = (a >= 0 /\ a <= 255)
           /\ FitsIn(A, 16, TRUE) = (a >= -32768 /\ a <= 32767) /\ FitsIn(A, 16, FALSE) = (a >= 0 /\ a <= 65535)
-ShiftOk == ph = 1 => 
+WrapOk == ph = 1 => WrapOkBody
+ShiftOkBody ==
   (b >= 0 /\ b <= 20) =>
              /\ (Small(a) /\ b <= 14 => ShiftLeft(A, b) = FromInt(a * 2 ^ b))
              /\ ShiftRightFloor(A, b) = FromInt(a \div (2 ^ b))          \* TLC's \div rounds toward minus infinity
              /\ DivisibleByPow2(A, b) = (a % (2 ^ b) = 0)
-BitLenOk == ph = 1 => 
+ShiftOk == ph = 1 => ShiftOkBody
+BitLenOkBody ==
   (a # 0 => LET k == BitLen(A) m == IF a < 0 THEN -a ELSE a IN 2 ^ (k - 1) <= m /\ (k = 31 \/ m < 2 ^ k))
             /\ (a = 0 => BitLen(A) = 0)
             /\ (a # 0 => LET t == TrailingZeros(A) IN a % (2 ^ t) = 0 /\ a % (2 ^ (t + 1)) # 0)
-BitOpsOk == ph = 1 => 
+BitLenOk == ph = 1 => BitLenOkBody
+BitOpsOkBody ==
   (a >= -32768 /\ a <= 32767 /\ b >= -32768 /\ b <= 32767) =>
               /\ BitAnd(A, B) = FromInt(NatBits("and", a, b, 17))
               /\ BitOr(A, B) = FromInt(NatBits("or", a, b, 17))
               /\ BitXor(A, B) = FromInt(NatBits("xor", a, b, 17))
               /\ BitAndNot(A, B) = FromInt(NatBits("and", a, -b - 1, 17))
               /\ BitNot(A) = FromInt(-a - 1)
-Pow2Ok == ph = 1 => 
+BitOpsOk == ph = 1 => BitOpsOkBody
+Pow2OkBody ==
   (b >= 0 /\ b <= 30) => Pow2(b) = FromInt(2 ^ b)
+Pow2Ok == ph = 1 => Pow2OkBody
 \* larger values, checked by algebraic identities (no native counterpart): 2^k * 2^m = 2^(k+m), (x*y)/y = x, ...
-BigIdentities == ph = 1 =>
-  (a >= 0 /\ a <= 12 /\ b >= 0 /\ b <= 12) =>
-     LET k == 41 * a + 7 m == 37 * b + 3 P == Pow2(k) Q == Pow2(m) X == Add(P, FromInt(a - 20)) Y == Sub(Q, FromInt(b + 1)) IN
+BigIdentitiesBody ==
+  (a >= 0 /\ a <= BigK /\ b >= 0 /\ b <= BigK) =>
+     LET k == 71 * a + 7 m == 67 * b + 3 P == Pow2(k) Q == Pow2(m) X == Add(P, FromInt(a - 20)) Y == Sub(Q, FromInt(b + 1)) IN
      /\ Mul(P, Q) = Pow2(k + m)
      /\ BitLen(P) = k + 1 /\ TrailingZeros(P) = k
      /\ ShiftRightFloor(Pow2(k + m), m) = P /\ ShiftLeft(P, m) = Pow2(k + m)
@@ -77,4 +92,5 @@ BigIdentities == ph = 1 =>
      /\ WrapTo(Add(Pow2(64), FromInt(a)), 64, FALSE) = FromInt(a) /\ WrapTo(Pow2(63), 64, TRUE) = Neg(Pow2(63))
      /\ BitAnd(Sub(Pow2(k + 1), One), P) = P /\ BitOr(P, Sub(P, One)) = Sub(Pow2(k + 1), One)
      /\ BitXor(Neg(P), Sub(P, One)) = FromInt(-1)
+BigIdentities == ph = 1 => BigIdentitiesBody
 =============================================================================
